@@ -60,7 +60,7 @@ import (
 
 type respCase struct {
 	Seed uint64   `json:"seed"`
-	Kind string   `json:"kind,omitempty"` // "" = random; directed: "empty-leaf", "root-missing", "skip-boundary", "dedup-two", "ignore-missing"
+	Kind string   `json:"kind,omitempty"` // "" = random; directed: "empty-leaf", "root-missing", "skip-boundary", "dedup-two", "ignore-missing", "paused-ext"
 	Desc string   `json:"desc,omitempty"`
 	Tags []string `json:"tags,omitempty"`
 }
@@ -82,6 +82,7 @@ type reqSpec struct {
 	hasIgn   bool
 	skip     int64
 	hasSkip  bool
+	paused   bool // the responder's incoming-request hook pauses the request; the driver unpauses it later
 	plan     *planNode
 	planSize int
 }
@@ -351,6 +352,11 @@ func genWorld(c respCase) (*world, error) {
 	if r.P(9, 10) {
 		w.store[0] = stPresent
 	}
+	// which requests the incoming-request hook pauses: a separate stream, so that older seeds keep their worlds
+	rp := rng.New(c.Seed ^ 0x70617573)
+	for _, rs := range w.reqs {
+		rs.paused = rp.P(1, 6)
+	}
 	// directed kinds
 	switch c.Kind {
 	case "empty-leaf":
@@ -369,6 +375,40 @@ func genWorld(c respCase) (*world, error) {
 	case "root-missing":
 		w.reqs = w.reqs[:1]
 		w.store[w.reqs[0].root] = stMissing
+	case "paused-ext":
+		// request 1 is paused by the incoming-request hook and carries exactly one of the three extensions;
+		// request 2 (no extension, default scope) runs over the same DAG; everything is present
+		for i := range w.store {
+			w.store[i] = stPresent
+		}
+		for len(w.reqs) < 2 {
+			cp := *w.reqs[0]
+			w.reqs = append(w.reqs, &cp)
+		}
+		w.reqs = w.reqs[:2]
+		for q, rs := range w.reqs {
+			rs.root, rs.dedup, rs.hasIgn, rs.hasSkip, rs.ignore, rs.paused = 0, 0, false, false, nil, q == 0
+			rs.sel, rs.selDesc = dag.AllSelector(), "all-recursive"
+			var err error
+			if rs.plan, rs.planSize, err = harvest(w.d, 0, rs.sel, segs); err != nil {
+				return nil, err
+			}
+		}
+		rs := w.reqs[0]
+		switch c.Seed % 3 {
+		case 0:
+			rs.hasSkip, rs.skip = true, int64(r.Range(1, rs.planSize))
+		case 1:
+			rs.hasIgn = true
+			rs.ignore = []int{0}
+			for j := 1; j < len(w.d.Blocks); j++ {
+				if k := w.d.Index(w.d.Blocks[j].Cid); k == j && r.P(1, 2) {
+					rs.ignore = append(rs.ignore, j)
+				}
+			}
+		default:
+			rs.dedup = r.Range(1, 3)
+		}
 	case "ignore-missing":
 		// the only missing link of the traversal is a visited non-root link that do-not-send-cids names:
 		// it must still be reported Missing and the response must end complete-partial
@@ -460,6 +500,7 @@ type evKind int
 const (
 	evArrived evKind = iota
 	evTerminal
+	evPaused
 )
 
 type event struct {
@@ -650,6 +691,13 @@ func (h *harness) AllocateAndBuildMessage(p peer.ID, blkSize uint64, fn func(*me
 			wm.indexes = append(wm.indexes, uint64(bd.Index()))
 		}
 		h.msgs = append(h.msgs, wm)
+		if rsp.Status() == graphsync.RequestPaused {
+			select {
+			case h.events <- event{evPaused, q}:
+			default:
+				h.problems = append(h.problems, "event queue full")
+			}
+		}
 		if rsp.Status().IsTerminal() {
 			select {
 			case h.events <- event{evTerminal, q}:
@@ -694,6 +742,9 @@ func play(w *world, sr *rng.R, wait time.Duration) (*runResult, error) {
 	requestHooks.Register(func(p peer.ID, rd graphsync.RequestData, ha graphsync.IncomingRequestHookActions) {
 		q := h.reqOf(rd.ID())
 		ha.ValidateRequest()
+		if q >= 0 && w.reqs[q].paused {
+			ha.PauseResponse()
+		}
 		ha.AugmentContext(func(c context.Context) context.Context { return context.WithValue(c, ctxKey{}, q) })
 	})
 	blockHooks := hooks.NewBlockHooks()
@@ -710,7 +761,7 @@ func play(w *world, sr *rng.R, wait time.Duration) (*runResult, error) {
 
 	p := peer.ID("requesting-peer")
 	res := &runResult{}
-	state := make([]int, len(w.reqs)) // 0 = not started, 1 = at a gate, 2 = finished
+	state := make([]int, len(w.reqs)) // 0 = not started, 1 = at a gate, 2 = finished, 3 = paused by the request hook
 	taken := 0
 	awaitReq := func(q int) error {
 		timer := time.NewTimer(wait)
@@ -721,9 +772,12 @@ func play(w *world, sr *rng.R, wait time.Duration) (*runResult, error) {
 				if e.req != q {
 					return fmt.Errorf("event for request %d while waiting for %d", e.req, q)
 				}
-				if e.kind == evArrived {
+				switch e.kind {
+				case evArrived:
 					state[q] = 1
-				} else {
+				case evPaused:
+					state[q] = 3
+				default:
 					state[q] = 2
 				}
 				return nil
@@ -739,8 +793,14 @@ func play(w *world, sr *rng.R, wait time.Duration) (*runResult, error) {
 			case 0:
 				// requests start in order; later ones may start while earlier ones are under way
 				if q == 0 || state[q-1] != 0 {
-					choices = append(choices, fmt.Sprintf("SStart %d", q))
+					if w.reqs[q].paused {
+						choices = append(choices, fmt.Sprintf("SStartPaused %d", q))
+					} else {
+						choices = append(choices, fmt.Sprintf("SStart %d", q))
+					}
 				}
+			case 3:
+				choices = append(choices, fmt.Sprintf("SUnpause %d", q))
 			case 1:
 				choices = append(choices, fmt.Sprintf("SStep %d", q), fmt.Sprintf("SStep %d", q))
 			}
@@ -750,8 +810,11 @@ func play(w *world, sr *rng.R, wait time.Duration) (*runResult, error) {
 		}
 		act := choices[sr.Intn(len(choices))]
 		var q int
+		var actName string
 		res.sched = append(res.sched, act)
-		if _, err := fmt.Sscanf(act, "SStart %d", &q); err == nil {
+		_, _ = fmt.Sscanf(act, "%s %d", &actName, &q)
+		switch actName {
+		case "SStart", "SStartPaused":
 			rs := w.reqs[q]
 			var exts []graphsync.ExtensionData
 			// extension order in the message does not matter: prepareQuery looks each one up by name
@@ -774,8 +837,11 @@ func play(w *world, sr *rng.R, wait time.Duration) (*runResult, error) {
 			}
 			req := gsmsg.NewRequest(h.ids[q], w.d.Blocks[rs.root].Cid, rs.sel, graphsync.Priority(0), exts...)
 			rm.ProcessRequests(ctx, p, []gsmsg.GraphSyncRequest{req})
-		} else {
-			_, _ = fmt.Sscanf(act, "SStep %d", &q)
+		case "SUnpause":
+			if err := rm.UnpauseResponse(ctx, h.ids[q]); err != nil {
+				return nil, fmt.Errorf("unpause: %w", err)
+			}
+		default:
 			select {
 			case h.release[q] <- struct{}{}:
 			case <-time.After(wait):
@@ -850,13 +916,9 @@ func (w *world) term(res *runResult) string {
 	b.WriteString("]\n    [")
 	for i, a := range res.sched {
 		var q int
-		act := ""
-		if _, err := fmt.Sscanf(a, "SStart %d", &q); err == nil {
-			act = fmt.Sprintf("SStart %d", q+1)
-		} else {
-			_, _ = fmt.Sscanf(a, "SStep %d", &q)
-			act = fmt.Sprintf("SStep %d", q+1)
-		}
+		var actName string
+		_, _ = fmt.Sscanf(a, "%s %d", &actName, &q)
+		act := fmt.Sprintf("%s %d", actName, q+1)
 		if i > 0 {
 			b.WriteString(";\n     ")
 		}
@@ -960,6 +1022,12 @@ func run(c *drv.Ctx) error {
 		emptyPresent := false
 		for q, rs := range wd.reqs {
 			_ = q
+			if rs.paused {
+				tags = append(tags, "paused-by-request-hook")
+				if rs.dedup != 0 || rs.hasIgn || rs.hasSkip {
+					tags = append(tags, "paused-by-request-hook-with-extension")
+				}
+			}
 			if rs.dedup == 3 {
 				tags = append(tags, "ext:dedup-by-key-empty-string")
 			}
@@ -1074,7 +1142,7 @@ func run(c *drv.Ctx) error {
 		rc := respCase{Seed: c.R.U64()}
 		tag := "random"
 		if i%10 == 9 {
-			rc.Kind = []string{"empty-leaf", "root-missing", "skip-boundary", "dedup-two", "ignore-missing"}[(i/10)%5]
+			rc.Kind = []string{"empty-leaf", "root-missing", "skip-boundary", "dedup-two", "ignore-missing", "paused-ext"}[(i/10)%6]
 			tag = "directed"
 		}
 		if err := add(rc, tag); err != nil {
